@@ -2,6 +2,7 @@ import Nject.WF
 import Nject.Edit
 import Nject.Pipeline
 import Nject.Slots
+import Nject.Validate
 /-
   Line-protocol driver: reads the case blocks the Go harness writes, rebuilds the compiled
   chain from the implementation's own S7 dump, runs `Exec` and `Spec` with the scripted
@@ -128,6 +129,11 @@ structure FLine where
   memo : Bool
   parallel : Bool
   singleton : Bool
+  required : Bool := false
+  desired : Bool := false
+  shun : Bool := false
+  wanted : Bool := false
+  synthetic : Bool := false
 deriving Repr, Inhabited
 
 def parseF (toks : List String) : FLine :=
@@ -138,7 +144,9 @@ def parseF (toks : List String) : FLine :=
     drm := parseRmap (field toks "drm"), urm := parseRmap (field toks "urm"), brm := parseRmap (field toks "brm"),
     zs := fieldNats toks "zs", zi := fieldNats toks "zi", ei := fieldNat toks "ei",
     memo := hasFlag toks "flags" "memoized", parallel := hasFlag toks "flags" "parallel",
-    singleton := hasFlag toks "flags" "singleton" }
+    singleton := hasFlag toks "flags" "singleton", required := hasFlag toks "flags" "required",
+    desired := hasFlag toks "flags" "desired", shun := hasFlag toks "flags" "shun",
+    wanted := hasFlag toks "flags" "wanted", synthetic := hasFlag toks "flags" "synthetic" }
 
 def parseScript (toks : List String) : Script :=
   { idx := (toks.getD 1 "0").toNat?.getD 0, kind := field toks "kind",
@@ -297,6 +305,43 @@ def runBindModel (a : CaseAcc) : List String :=
     [ "m5 ok " ++ " ".intercalate fl,
       s!"m6 vcount={bo.slots.st.count} d={fmtTys (sortNat (bo.slots.st.dmap.map (·.1)))} u={fmtTys (sortNat (bo.slots.st.umap.map (·.1)))} z " ++ " ".intercalate zl ]
 
+def classOfStr (s : String) : ClassT :=
+  if s == "fallible-injector" then .fallibleInjectorFunc else if s == "fallible-static-injector" then .fallibleStaticInjectorFunc
+  else if s == "injector" then .injectorFunc else if s == "wrapper-func" then .wrapperFunc else if s == "final-func" then .finalFunc
+  else if s == "static-injector" then .staticInjectorFunc else if s == "literal-value" then .literalValue
+  else if s == "init-func" then .initFunc else if s == "invoke-func" then .invokeFunc else .unsetClassType
+
+def groupOfStr (s : String) : GroupT :=
+  if s == "literal" then .literalGroup else if s == "static" then .staticGroup else if s == "run" then .runGroup
+  else if s == "final" then .finalGroup else .invokeGroup
+
+/-- the implementation's bound chain (S7 dump + the providers' annotations) as a model `Chain` -/
+def dumpChain (a : CaseAcc) : Chain :=
+  let fs := a.flines.reverse
+  (fs.zip (List.range fs.length)).map fun (f, i) =>
+    let d := a.pdescs.find? (·.idx == f.id)
+    let c : CP :=
+      { id := f.id, cls := classOfStr f.cls, group := groupOfStr f.group,
+        ret := f.ret, out := f.out, inp := f.inp, recv := f.recv, byp := f.byp,
+        required := f.required, desired := f.desired, shun := f.shun, synthetic := f.synthetic,
+        loose := (d.map (·.loose)).getD [], mustConsume := (d.map (·.mustConsume)).getD [],
+        consOpt := if f.id == 901 || f.id == 902 then [tUnused] else (d.map (·.consOpt)).getD [],
+        shadowOK := (d.map (·.shadowOK)).getD [], cluster := (d.map (·.cluster)).getD 0 }
+    { c := c, pos := i, inc := f.inc, wanted := f.wanted, downRmap := f.drm, upRmap := f.urm, bypassRmap := f.brm }
+
+def idsOrDash (l : List Nat) : String := if l.isEmpty then "-" else ",".intercalate (l.map toString)
+
+/-- validators on the implementation's own bound chain -/
+def runValidators (a : CaseAcc) : List String :=
+  let ch := dumpChain a
+  let okf (b : Bool) : String := if b then "ok" else "fail"
+  [ "v5 consumed " ++ okf (returnsConsumedB ch),
+    "v5 required " ++ okf (requiredIncludedB ch),
+    "v5 shadow " ++ okf (checkShadowing ch),
+    s!"v5 unjustified {idsOrDash (allJustifiedB ch)}",
+    s!"v5 mustconsume {idsOrDash (mustConsumeOKB ch)}",
+    s!"v5 loose {idsOrDash (looseOKB ch)}" ]
+
 /-- run all ops through Exec and Spec; returns output lines -/
 def runCase (a : CaseAcc) : List String :=
   if !a.bindOk then [s!"case {a.n}", runEdit a] ++ runAssemble a ++ runBindModel a ++ ["skip nobind", "end"] else
@@ -323,7 +368,7 @@ def runCase (a : CaseAcc) : List String :=
       (ls ++ evs.map ("s " ++ ·) ++ [s!"s ret {fmtVals res}"], s')) ([], c.specBindState)
     let (fl, fnode) := (buildProg c.run c.fin).flatten
     let prog := if fl.map (·.id) == c.run.map (·.id) && fnode.id == c.fin.id then "prog ok" else "prog fail"
-    [s!"case {a.n}", runEdit a] ++ runAssemble a ++ runBindModel a ++ [wf, sup, prog] ++ xl ++ sl ++ ["end"]
+    [s!"case {a.n}", runEdit a] ++ runAssemble a ++ runBindModel a ++ runValidators a ++ [wf, sup, prog] ++ xl ++ sl ++ ["end"]
 
 def stepLine (a : CaseAcc) (line : String) : CaseAcc × List String :=
   let toks := (line.splitOn " ").filter (· != "")
